@@ -1,5 +1,6 @@
 //! Kani harnesses over trustfall_core's value-level kernels. See /verif/DESIGN.md.
 #![allow(unused, clippy::all)]
+#![cfg_attr(kani, feature(allocator_api))]
 
 #[macro_use]
 mod macros;
@@ -29,6 +30,8 @@ pub mod c16;
 pub mod c17;
 #[cfg(kani)]
 pub mod c18;
+#[cfg(kani)]
+pub mod c22;
 
 /// Stub for `std::fmt::format`: error paths build their messages from symbolic data; the text
 /// of a message is never part of an assertion.
@@ -42,3 +45,10 @@ pub fn stub_format(_args: std::fmt::Arguments<'_>) -> String {
 pub fn stub_type_display(_t: &trustfall_core::ir::Type, _f: &mut std::fmt::Formatter<'_>) -> std::fmt::Result {
     Ok(())
 }
+
+/// Stub for `Arc::drop_slow` (what runs when the last reference goes away): do nothing, i.e. leak.
+/// Destructors of field values have no observable effect besides freeing memory, and the
+/// recursive drop glue of `FieldValue::List(Arc<[FieldValue]>)` is what makes CBMC explode
+/// wherever a value is dropped on a symbolic path.
+#[cfg(kani)]
+pub fn stub_arc_drop_slow<T: ?Sized, A: std::alloc::Allocator>(_this: &mut std::sync::Arc<T, A>) {}
